@@ -18,8 +18,9 @@ HEXUP = sum(1 << ord(c) for c in "0123456789ABCDEF")
 class Model:
     """FM pieces + escape sets + PM regions, extracted once per run."""
 
-    def __init__(self, facts):
+    def __init__(self, facts, reference_parser=False):
         self.facts = facts
+        self.reference_parser = reference_parser
         self.summ = boolsum.Summarizer(facts)
         self.fm = models.formatter_model(facts)
         self.flat = C03.flatten(facts, self.fm, self.summ)
@@ -47,6 +48,26 @@ class Model:
         for k in ("type", "namespace", "name", "version", "qualifiers", "subpath"):
             if k not in self.regions or not models.region_ok(self.regions[k]):
                 raise AnchorError("parser model: no region for sink %s" % k)
+        if reference_parser:
+            # injectivity of Display (C19) is a property of the formatter alone: decode with the REFERENCE grammar
+            # (R-GRAMMAR, transcribed from the property texts), not with whatever the crate's parser currently does
+            self.regions = {"type": faults.TYPE, "namespace": faults.NS, "name": faults.NAME, "version": faults.VER, "qualifiers": faults.QUAL, "subpath": faults.SUB}
+            self.kv_split = ("Split", "=")
+            self.item_sep = "&"
+            return
+        # the qualifier decoder: item separator and which '=' separates key and value
+        qd = self.roles.get("qualifier-decoder")
+        if not qd:
+            raise AnchorError("qualifier decoder not found by role")
+        bs = models.body_summary(facts, qd)
+        ent = [e for e in bs["effects"] if e["path"] == self.roles.get("entry")]
+        if len(ent) != 1:
+            raise AnchorError("qualifier decoder: the entry() call is not unique", qd)
+        kr = models._region(ent[0]["args"][1])
+        if kr[0] not in ("SplitL", "RSplitL") or kr[2][0] != "Item":
+            raise AnchorError("qualifier decoder: key region not understood: %s" % models.show_region(kr), qd)
+        self.kv_split = (kr[0].replace("L", ""), kr[1])      # ("Split" | "RSplit", '=')
+        self.item_sep = kr[2][1]
 
     def raw(self, comp):
         """ASCII chars that may occur raw inside the encoded text of a component."""
@@ -232,9 +253,9 @@ class Sim:
         raise AnchorError("region operator %s not supported by the agreement simulation" % k)
 
 
-def run_agree(ctx, rule, domain, nq_max):
+def run_agree(ctx, rule, domain, nq_max, reference_parser=False):
     facts = ctx.facts()
-    m = Model(facts)
+    m = Model(facts, reference_parser)
     key_fm = m.fm["key"]
     key_pm = m.pm["key"]
     seen = {}
@@ -297,11 +318,11 @@ def run_agree(ctx, rule, domain, nq_max):
                             cur = []
                             bad = False
                             for t in got:
-                                if t[0] == "L" and t[1] == "&":
+                                if t[0] == "L" and t[1] == m.item_sep:
                                     items.append(cur)
                                     cur = []
-                                elif t[0] == "C" and (m.raw(t[1]) >> ord("&")) & 1:
-                                    sim.record("split", t[1], "&", False, "the qualifier loop splits items at '&', which may be a raw character inside the %s component (escape set %s)" % (t[1], m.esc[t[1]][0]))
+                                elif t[0] == "C" and (m.raw(t[1]) >> ord(m.item_sep)) & 1:
+                                    sim.record("split", t[1], m.item_sep, False, "the qualifier loop splits items at %r, which may be a raw character inside the %s component (escape set %s)" % (m.item_sep, t[1], m.esc[t[1]][0]))
                                     bad = True
                                     cur.append(t)
                                 else:
@@ -311,9 +332,15 @@ def run_agree(ctx, rule, domain, nq_max):
                             for i, it in enumerate(items):
                                 shape = it == [("C", "qualifier-key", i), ("L", "="), ("C", "qualifier-value", i)]
                                 ok = ok and shape
-                                if it and it[0][0] == "C":
-                                    okk = not (m.raw(it[0][1]) >> ord("=")) & 1
-                                    sim.record("split", it[0][1], "=", okk, "split_once('=') takes the first '=': the %s component must not contain a raw '='" % it[0][1])
+                                kvc = m.kv_split[1]
+                                if m.kv_split[0] == "Split":
+                                    if it and it[0][0] == "C":
+                                        okk = not (m.raw(it[0][1]) >> ord(kvc)) & 1
+                                        sim.record("split", it[0][1], kvc, okk, "the parser cuts key/value at the FIRST %r: the %s component (left of it) must not contain a raw %r" % (kvc, it[0][1], kvc))
+                                else:
+                                    if it and it[-1][0] == "C":
+                                        okk = not (m.raw(it[-1][1]) >> ord(kvc)) & 1
+                                        sim.record("split", it[-1][1], kvc, okk, "the parser cuts key/value at the LAST %r: the %s component (right of it) must not contain a raw %r, but the escape set %s leaves it raw" % (kvc, it[-1][1], kvc, m.esc[it[-1][1]][0]))
                         sink_results.setdefault((sink, ok), []).append(pi)
                     # guards of the parser on the emitted string: non-empty remainder before the type split
                     # (type is non-empty by TYPE-VALID), nothing to record.
